@@ -35,6 +35,7 @@ ASSUMPTIONS = [
     "attempt start = creation of the client's connection object (APIClient.start_connection), observed by the harness-side connection subclass; failure instant = on_connect_error call; session = connection reaching CONNECTED",
     "one retry-timer slot: a newer back-off or cool-down supersedes a pending one, an immediate trigger (start(), unexpected disconnect, mDNS) does not; in a failure streak containing an authentication/encryption error both f+60 and f+min(round(1.8^n),60) justify an attempt and neither is mandatory",
     "when the retry timer fires while an attempt is still at the TCP stage the manager may restart it (old attempt cancelled first): justified, not mandatory; a mandatory instant coinciding (+-1 us) with another event is not asserted (order unspecified)",
+    "'never while handshaking or connected' is read as: with a session established the manager is not registered as an mDNS listener (checked at on_connect); records force-delivered to it then must cause nothing",
     "mDNS records reach the manager only through listeners it registered on the (fake) zeroconf; 'while waiting' = while it is registered; force-delivered records while handshaking/connected/stopped must cause nothing",
     "stop() does not disconnect a live session (documented); on_disconnect is still reported when that session ends later",
 ]
@@ -437,6 +438,11 @@ def judge(env, world, case, viol, classes) -> None:
             n = n_lo = 0
             auth_streak = False
             phase = "connected"
+            if listening and named:
+                # mDNS records matter only while the manager waits to retry: with a session established it must not be
+                # registered any more (a listener left over would also hear the device's announcement during the
+                # cool-down after an expected disconnect and cut the cool-down short)
+                viol.append(V("c18:listening-while-connected", f"session established at t={t:.6f} with the manager's mDNS listener still registered"))
             if cur_attempt is not None:
                 cur_attempt["outcome"] = "ok"
             slot = [] if not slot else slot  # a pending cool-down/back-off may still fire; it must then cause nothing
